@@ -118,13 +118,22 @@ def run_hypothesis_shard(mod, tier, seed, shard, nshards, examples, known_bucket
     class Found(Exception):
         pass
 
+    class _Stop(KeyboardInterrupt):
+        pass
+
     while remaining > 0 and rnd < 12:
         state = {"calls": 0, "fail_calls": 0, "failing_keys": set(), "last_fail": None, "frozen": False,
-                 "target": None}
+                 "target": None, "shrink_calls": 0, "last_size": 0}
 
         def body(case):
             state["calls"] += 1
             res["evaluations"] += 1
+            if state["target"] is not None:
+                state["shrink_calls"] += 1
+                if state["shrink_calls"] > shrink_budget:
+                    # shrink budget used up: leave Hypothesis (it re-raises KeyboardInterrupt at once);
+                    # the smallest failing case seen so far becomes the replay
+                    raise _Stop()
             try:
                 out = mod.check(case)
             except HarnessError:
@@ -164,7 +173,10 @@ def run_hypothesis_shard(mod, tier, seed, shard, nshards, examples, known_bucket
             state["fail_calls"] += 1
             if state["fail_calls"] > shrink_budget:
                 state["frozen"] = True
-            state["last_fail"] = (case, new, out)
+            size = len(json.dumps(mod.dump_case(case), default=str))
+            if state["last_fail"] is None or size <= state["last_size"]:
+                state["last_fail"] = (case, new, out)
+                state["last_size"] = size
             raise Found(new[0].bucket)
 
         test = given(strat)(body)
@@ -176,7 +188,7 @@ def run_hypothesis_shard(mod, tier, seed, shard, nshards, examples, known_bucket
         try:
             test()
             remaining = 0
-        except Found:
+        except (Found, _Stop):
             case, new, out = state["last_fail"]
             for v in new:
                 if v.refine is not None:
